@@ -112,7 +112,13 @@ TableUnit(u) == /\ last = None /\ cell = AnchorCell
 TableMode(m) == /\ last = None /\ cell = AnchorCell
                 /\ last' = [op |-> "table.mode", mode |-> Absent, res |-> [kind |-> "ok"], out |-> Ok(ModeInfo(m)), operands |-> [mode |-> m], same |-> FALSE]
                 /\ UNCHANGED cell
-Next == (\E mode \in ModeOpts : Step(mode)) \/ StepSame \/ (\E u \in UnitSet \cup {"auto"} : TableUnit(u)) \/ (\E m \in Modes : TableMode(m))
+\* Unit + n (impl Add<usize>): the unit n places up the table nanosecond .. year; anything beyond (also a sum beyond the integer type; n = -1 stands for usize::MAX) is auto
+UnitIndex(u) == IF u = "auto" THEN 0 ELSE CHOOSE i \in 1..Len(Units) : Units[i] = u
+UnitPlus(u, n) == IF n = -1 \/ UnitIndex(u) + n > Len(Units) \/ UnitIndex(u) + n = 0 THEN "auto" ELSE Units[UnitIndex(u) + n]
+TableUnitAdd(u, n) == /\ last = None /\ cell = AnchorCell
+                      /\ last' = [op |-> "table.unitAdd", mode |-> Absent, res |-> [kind |-> "ok"], out |-> Ok(UnitPlus(u, n)), operands |-> [unit |-> u, n |-> n], same |-> FALSE]
+                      /\ UNCHANGED cell
+Next == (\E mode \in ModeOpts : Step(mode)) \/ StepSame \/ (\E u \in UnitSet \cup {"auto"}, n \in {0, 1, 3, 10, 11, -1} : TableUnitAdd(u, n)) \/ (\E u \in UnitSet \cup {"auto"} : TableUnit(u)) \/ (\E m \in Modes : TableMode(m))
 \* laws on the tables: negation is an involution that swaps the two signs' unsigned modes; the three unit classes partition as Temporal says
 TableLaws == /\ (last.op = "table.mode" => LET m == last.operands.mode IN
                     /\ NegateMode(NegateMode(m)) = m
@@ -124,7 +130,7 @@ Spec == Init /\ [][Next]_vars
 
 Done == last.op # "none"
 \* acceptance never depends on the rounding mode
-IsTable == last.op \in {"table.unit", "table.mode"}
+IsTable == last.op \in {"table.unit", "table.mode", "table.unitAdd"}
 AcceptanceIgnoresMode == (Done /\ ~IsTable) => (last.res.kind = ResolveCell(cell, Absent).kind)
 \* resolved settings are coherent
 ResolvedCoherent == (Done /\ ~IsTable /\ last.res.kind = "ok") =>
